@@ -11,7 +11,10 @@ From Yv Require Export Common.Base C03.Defs C03.Model C03.Spec.
      (the model's [outcome] type is reused; RFuel is never sent). *)
 Inductive case :=
 | KAscii (tbl : list (N * N))
-| KEval (ucls : list (N * N)) (expression : str) (vars : env) (out : outcome).
+| KEval (ucls : list (N * N)) (expression : str) (vars : env) (out : outcome)
+(* the same through the whole shell: `args "$((expression))"` after assigning the
+   variables, then the variables read back; only value / error is observable *)
+| KShell (ucls : list (N * N)) (expression : str) (vars : env) (ans : answer).
 
 Fixpoint assoc_N (c : N) (tbl : list (N * N)) : option N :=
   match tbl with
@@ -74,6 +77,17 @@ Definition answer_of (o : outcome) : answer :=
   | RPanic | RFuel => AnsPanic
   end.
 
+Definition answer_eqb (a b : answer) : bool :=
+  match a, b with
+  | AnsValue x e, AnsValue y e' => Z.eqb x y && env_equiv e e'
+  | AnsError, AnsError | AnsPanic, AnsPanic | AnsOther, AnsOther => true
+  | _, _ => false
+  end.
+
+Definition classified (ucls : list (N * N)) (s : str) : bool :=
+  forallb (fun c => (c <? 128)%N
+                    || match assoc_N c ucls with Some _ => true | None => false end) s.
+
 Definition run_case (c : case) : verdict :=
   match c with
   | KAscii tbl =>
@@ -81,14 +95,21 @@ Definition run_case (c : case) : verdict :=
                  (map N.of_nat (seq 0 128))
       then 0%N else 1%N
   | KEval ucls s vars out =>
-      if negb (forallb (fun c => (c <? 128)%N
-                                 || match assoc_N c ucls with Some _ => true | None => false end) s)
+      if negb (classified ucls s)
       then 99%N
       else
         let cls := cls_of ucls in
         (* oracle first, on the implementation's answer only *)
         match oracle cls s vars (answer_of out) with
         | 0%N => if outcome_eqb (run cls s vars) out then 0%N else 1%N
+        | k => k
+        end
+  | KShell ucls s vars ans =>
+      if negb (classified ucls s) then 99%N
+      else
+        let cls := cls_of ucls in
+        match oracle cls s vars ans with
+        | 0%N => if answer_eqb (answer_of (run cls s vars)) ans then 0%N else 1%N
         | k => k
         end
   end.
